@@ -178,7 +178,7 @@ func init() {
 		Assumptions: []string{"fragment of the property: ground facts, range-restricted rules, error-free or uniformly failing expressions; cases where a query has both answers and errors (order-dependent) give no verdict and are counted", "large limits; LIMIT is inconclusive"},
 		NumCases: func(tier string) int {
 			if tier == "thorough" {
-				return 6000
+				return 45000
 			}
 			return 300
 		},
